@@ -747,15 +747,15 @@ theorem pyGet_neg1 (lines : List Line) (h : 0 < lines.length) :
   intro h0; subst h0; simp at h
 
 theorem pyGet_inside (lines : List Line) (ln : Nat) (h1 : 1 ≤ ln) (h2 : ln ≤ lines.length) :
-    (∃ l, pyGet lines ((ln : Int) - 1) = some l) ∧ (∃ l, pyGet lines ((ln : Int) - 2) = some l) := by
+    (∃ l, pyGet lines ((ln : Int) - 1) = some l) ∧
+    (∃ l, (if 2 ≤ ln then pyGet lines ((ln : Int) - 2) else some []) = some l) := by
   constructor
   · have e1 : (ln : Int) - 1 = ((ln - 1 : Nat) : Int) := by omega
     rw [e1]; exact ⟨_, pyGet_nat lines (ln - 1) (by omega)⟩
   · by_cases h : 2 ≤ ln
     · have e1 : (ln : Int) - 2 = ((ln - 2 : Nat) : Int) := by omega
-      rw [e1]; exact ⟨_, pyGet_nat lines (ln - 2) (by omega)⟩
-    · have e1 : (ln : Int) - 2 = -1 := by omega
-      rw [e1]; exact pyGet_neg1 lines (by omega)
+      rw [if_pos h, e1]; exact ⟨_, pyGet_nat lines (ln - 2) (by omega)⟩
+    · rw [if_neg h]; exact ⟨_, rfl⟩
 
 theorem showError_isSome (env : Env) (lines : List Line) (st : St) (c : Call)
     (hin : c.inFile env.reg lines = true) : ∃ st', showError env lines st c = some st' := by
